@@ -3,6 +3,11 @@
      - registration (createStructDesc with its caches, node links and the
        rollback of a failed build) computes [accepted_with] whatever was
        registered or failed before                       (create_pure);
+     - the rollback is explicit: a failed traversal keeps what it cached and
+       linked, and rollbackPending removes exactly the logged ids; that this
+       gives back the state before the call is a theorem about the log
+       (prefetch_log, rollback_restores, create_failure_restores), and with
+       part of the log lost it is false          (rollback_needs_full_log);
      - the left-over content of a recycled presence bitset is invisible to
        the decoder                                       (decode_pool_irrelevant);
      - hence every call returns what it returns in a fresh process (C07
@@ -60,6 +65,71 @@ Proof.
   intros A f g l. induction l as [|a l IH]; intros H; [reflexivity|].
   cbn [find]. rewrite <- (H a (or_introl eq_refl)).
   destruct (f a); [reflexivity|]. apply IH. intros x Hx. apply H. right. exact Hx.
+Qed.
+
+(* ------------------------------------------------------------------ *)
+(* remove_ids: what rollbackPending does to a cache / to the node links  *)
+(* ------------------------------------------------------------------ *)
+
+Lemma remove_ids_nil : forall ids, remove_ids ids [] = [].
+Proof. reflexivity. Qed.
+
+Lemma remove_ids_cons : forall ids s l,
+  remove_ids ids (s :: l) = if memN s ids then remove_ids ids l else s :: remove_ids ids l.
+Proof. intros ids s l. unfold remove_ids. cbn [filter]. destruct (memN s ids); reflexivity. Qed.
+
+Lemma remove_ids_cons_in : forall ids s l, In s ids -> remove_ids ids (s :: l) = remove_ids ids l.
+Proof.
+  intros ids s l H. rewrite remove_ids_cons. apply memN_In in H. rewrite H. reflexivity.
+Qed.
+
+Lemma remove_ids_cons_out : forall ids s l,
+  ~ In s ids -> remove_ids ids (s :: l) = s :: remove_ids ids l.
+Proof.
+  intros ids s l H. rewrite remove_ids_cons. apply memN_false in H. rewrite H. reflexivity.
+Qed.
+
+Lemma remove_ids_In : forall ids l x, In x (remove_ids ids l) <-> In x l /\ ~ In x ids.
+Proof.
+  intros ids l x. unfold remove_ids. rewrite filter_In, negb_true_iff, memN_false. tauto.
+Qed.
+
+(* removing ids that are not there changes nothing *)
+Lemma remove_ids_absent : forall ids l, (forall x, In x ids -> ~ In x l) -> remove_ids ids l = l.
+Proof.
+  intros ids l. induction l as [|y l IH]; intros H; [reflexivity|].
+  rewrite remove_ids_cons_out.
+  - rewrite IH; [reflexivity|]. intros x Hx Hin. apply (H x Hx). right. exact Hin.
+  - intros Hy. apply (H y Hy). left. reflexivity.
+Qed.
+
+(* a prefix made of removed ids disappears *)
+Lemma remove_ids_app_in : forall ids a l, incl a ids -> remove_ids ids (a ++ l) = remove_ids ids l.
+Proof.
+  intros ids a l. induction a as [|y a IH]; intros H; [reflexivity|].
+  cbn [app]. rewrite remove_ids_cons_in; [|apply H; left; reflexivity].
+  apply IH. intros x Hx. apply H. right. exact Hx.
+Qed.
+
+(* the cache and the node links are lists used as sets, the additions are made
+   at the head: removing exactly the ids that were added, none of which was
+   there before, gives back the old list *)
+Lemma remove_added : forall added old,
+  (forall x, In x added -> ~ In x old) -> remove_ids added (added ++ old) = old.
+Proof.
+  intros added old H. rewrite remove_ids_app_in; [|apply incl_refl].
+  apply remove_ids_absent. exact H.
+Qed.
+
+(* the delete of a single entry that the rollback would delete anyway is absorbed *)
+Lemma remove_ids_absorb : forall ids s l,
+  In s ids -> remove_ids ids (remove_ids [s] l) = remove_ids ids l.
+Proof.
+  intros ids s l Hs. induction l as [|y l IH]; [reflexivity|].
+  rewrite (remove_ids_cons [s] y l). rewrite memN_cons. cbn [memN existsb]. rewrite orb_false_r.
+  destruct (y =? s) eqn:E.
+  - apply N.eqb_eq in E. subst y. rewrite IH. symmetry. apply remove_ids_cons_in. exact Hs.
+  - rewrite !remove_ids_cons. rewrite IH. reflexivity.
 Qed.
 
 (* ------------------------------------------------------------------ *)
@@ -317,10 +387,10 @@ Section Registration.
   Lemma reg_ok_init : reg_ok gu reg_init.
   Proof. intros s [[]|[[]|[]]]. Qed.
 
-  Lemma prefetch_O : forall r pend todo, prefetch gu O r pend todo = Some (r, pend).
+  Lemma prefetch_O : forall r pend todo, prefetch gu O r pend todo = (r, pend, true).
   Proof. reflexivity. Qed.
 
-  Lemma prefetch_nil : forall fuel r pend, prefetch gu fuel r pend [] = Some (r, pend).
+  Lemma prefetch_nil : forall fuel r pend, prefetch gu fuel r pend [] = (r, pend, true).
   Proof. intros [|fuel] r pend; reflexivity. Qed.
 
   Lemma prefetch_S : forall fuel r pend s rest,
@@ -328,14 +398,19 @@ Section Registration.
     if memN s (r_node r) then prefetch gu fuel r pend rest
     else if memN s (r_pre r) then
       prefetch gu fuel (mkReg (r_pub r) (r_pre r) (s :: r_node r)) (fst pend, s :: snd pend) rest
-    else if negb (resolves gu s) then None
+    else if negb (resolves gu s) then (r, pend, false)
     else
-      match prefetch gu fuel (mkReg (r_pub r) (s :: r_pre r) (r_node r)) (s :: fst pend, snd pend)
-                     (mentions ru s) with
-      | None => None
-      | Some (r1, pend1) =>
-          prefetch gu fuel (mkReg (r_pub r1) (r_pre r1) (s :: r_node r1)) (fst pend1, s :: snd pend1) rest
-      end.
+      let '(r1, pend1, ok1) :=
+        prefetch gu fuel (mkReg (r_pub r) (s :: r_pre r) (r_node r)) (s :: fst pend, snd pend)
+                 (mentions ru s) in
+      if ok1 then
+        prefetch gu fuel (mkReg (r_pub r1) (r_pre r1) (s :: r_node r1)) (fst pend1, s :: snd pend1) rest
+      else (mkReg (r_pub r1) (remove_ids [s] (r_pre r1)) (r_node r1), pend1, false).
+  Proof. reflexivity. Qed.
+
+  Lemma rollback_eq : forall r pend,
+    rollback r pend =
+    mkReg (r_pub r) (remove_ids (fst pend) (r_pre r)) (remove_ids (snd pend) (r_node r)).
   Proof. reflexivity. Qed.
 
   Lemma create_eq : forall r s,
@@ -344,11 +419,11 @@ Section Registration.
     else if memN s (r_pre r) then (mkReg (s :: r_pub r) (r_pre r) (r_node r), true)
     else if negb (resolves gu s) then (r, false)
     else
-      match prefetch gu (prefetch_fuel gu) (mkReg (r_pub r) (s :: r_pre r) (r_node r)) ([s], [])
-                     (mentions ru s) with
-      | Some (r1, _) => (mkReg (s :: r_pub r1) (r_pre r1) (r_node r1), true)
-      | None => (r, false)
-      end.
+      let '(r1, pend1, ok1) :=
+        prefetch gu (prefetch_fuel gu) (mkReg (r_pub r) (s :: r_pre r) (r_node r)) ([s], [])
+                 (mentions ru s) in
+      if ok1 then (mkReg (s :: r_pub r1) (r_pre r1) (r_node r1), true)
+      else (rollback r1 pend1, false).
   Proof. reflexivity. Qed.
 
   (* ---- the fuel: what the structs not yet cached can still cost ---- *)
@@ -403,15 +478,15 @@ Section Registration.
     - right. split; [exact Hres|]. right. intros u Hu. apply HW. apply H. exact Hu.
   Qed.
 
-  Definition prefetch_post (r : reg) (K todo : list N) (res : option (reg * (list N * list N))) : Prop :=
+  Definition prefetch_post (r : reg) (K todo : list N) (res : reg * (list N * list N) * bool) : Prop :=
     match res with
-    | Some (r', _) =>
+    | (r', _, true) =>
         P r' K /\ (forall t, W r t -> W r' t) /\ (forall t, In t todo -> W r' t) /\
         r_pub r' = r_pub r /\ incl (r_pre r) (r_pre r')
-    | None => exists t u, In t todo /\ reach gu t u /\ resolves gu u = false
+    | (_, _, false) => exists t u, In t todo /\ reach gu t u /\ resolves gu u = false
     end.
 
-  Lemma post_here : forall r K pend, P r K -> prefetch_post r K [] (Some (r, pend)).
+  Lemma post_here : forall r K pend, P r K -> prefetch_post r K [] (r, pend, true).
   Proof.
     intros r K pend HP. unfold prefetch_post. split5.
     - exact HP.
@@ -419,6 +494,14 @@ Section Registration.
     - intros t [].
     - reflexivity.
     - apply incl_refl.
+  Qed.
+
+  Lemma post_fail_tail : forall r r2 K s rest r' pend',
+    prefetch_post r2 K rest (r', pend', false) -> prefetch_post r K (s :: rest) (r', pend', false).
+  Proof.
+    intros r r2 K s rest r' pend' H. unfold prefetch_post in H |- *.
+    destruct H as (t & u & Ht & Hr & Hu). exists t, u.
+    split; [right; exact Ht|]. split; assumption.
   Qed.
 
   Lemma prefetch_spec : forall fuel r pend todo K,
@@ -435,12 +518,12 @@ Section Registration.
       { (* linked node: trusted *)
         apply memN_In in Enode.
         specialize (IH r pend rest K ltac:(lia) HP).
-        destruct (prefetch gu fuel r pend rest) as [[r' pend']|]; unfold prefetch_post in IH |- *.
-        - destruct IH as (HP' & HW & Hrest & Hpub & Hpre).
+        destruct (prefetch gu fuel r pend rest) as [[r' pend'] [|]].
+        - unfold prefetch_post in IH |- *.
+          destruct IH as (HP' & HW & Hrest & Hpub & Hpre).
           split5; try assumption.
           intros t [Ht|Ht]; [subst t; apply HW; right; exact Enode | apply Hrest; exact Ht].
-        - destruct IH as (t & u & Ht & Hr & Hu). exists t, u.
-          split; [right; exact Ht|]. split; assumption. }
+        - apply post_fail_tail with r. exact IH. }
       destruct (memN s (r_pre r)) eqn:Epre.
       { (* cache hit *)
         apply memN_In in Epre.
@@ -452,15 +535,16 @@ Section Registration.
         assert (HP2 : P r2 K).
         { intros t Ht. apply Q_mono with r K; [exact HW2 | apply incl_refl | apply HP, HW2', Ht]. }
         specialize (IH r2 (fst pend, s :: snd pend) rest K ltac:(cbn [r2 r_pre]; lia) HP2).
-        destruct (prefetch gu fuel r2 (fst pend, s :: snd pend) rest) as [[r' pend']|]; unfold prefetch_post in IH |- *.
-        - destruct IH as (HP' & HW & Hrest & Hpub & Hpre).
+        destruct (prefetch gu fuel r2 (fst pend, s :: snd pend) rest) as [[r' pend'] [|]].
+        - unfold prefetch_post in IH |- *.
+          destruct IH as (HP' & HW & Hrest & Hpub & Hpre).
           split5; try assumption.
           + intros t Ht. apply HW, HW2, Ht.
           + intros t [Ht|Ht]; [subst t; apply HW; left; exact Epre | apply Hrest; exact Ht].
-        - destruct IH as (t & u & Ht & Hr & Hu). exists t, u.
-          split; [right; exact Ht|]. split; assumption. }
+        - apply post_fail_tail with r2. exact IH. }
       destruct (resolves gu s) eqn:Eres; cbn [negb].
-      2:{ exists s, s. split; [left; reflexivity|]. split; [apply reach_refl | exact Eres]. }
+      2:{ unfold prefetch_post. exists s, s.
+          split; [left; reflexivity|]. split; [apply reach_refl | exact Eres]. }
       (* new descriptor *)
       set (r2 := mkReg (r_pub r) (s :: r_pre r) (r_node r)).
       pose proof (budget_strict s (r_pre r) Eres Epre) as Hb.
@@ -473,9 +557,10 @@ Section Registration.
         - apply Q_mono with r K; [exact HW2 | apply incl_tl, incl_refl | apply HP; right; exact Ht]. }
       pose proof (IH r2 (s :: fst pend, snd pend) (mentions ru s) (s :: K)
                     ltac:(cbn [r2 r_pre]; lia) HP2) as IH1.
-      destruct (prefetch gu fuel r2 (s :: fst pend, snd pend) (mentions ru s)) as [[r1 pend1]|];
+      destruct (prefetch gu fuel r2 (s :: fst pend, snd pend) (mentions ru s)) as [[r1 pend1] [|]];
         unfold prefetch_post in IH1.
-      2:{ destruct IH1 as (t & u & Ht & Hr & Hu). exists s, u.
+      2:{ (* the sub-build failed: the error goes up, whatever state is left *)
+          destruct IH1 as (t & u & Ht & Hr & Hu). unfold prefetch_post. exists s, u.
           split; [left; reflexivity|]. split; [apply reach_step with t; assumption | exact Hu]. }
       destruct IH1 as (HP1 & HW1 & Hm1 & Hpub1 & Hpre1).
       set (r3 := mkReg (r_pub r1) (r_pre r1) (s :: r_node r1)).
@@ -493,44 +578,195 @@ Section Registration.
       assert (Hb1 : (budget (r_pre r1) <= budget (s :: r_pre r))%nat).
       { apply budget_mono. exact Hpre1. }
       specialize (IH r3 (fst pend1, s :: snd pend1) rest K ltac:(cbn [r3 r_pre]; lia) HP3).
-      destruct (prefetch gu fuel r3 (fst pend1, s :: snd pend1) rest) as [[r' pend']|]; unfold prefetch_post in IH |- *.
-      + destruct IH as (HP' & HW & Hrest & Hpub & Hpre).
+      destruct (prefetch gu fuel r3 (fst pend1, s :: snd pend1) rest) as [[r' pend'] [|]].
+      + unfold prefetch_post in IH |- *.
+        destruct IH as (HP' & HW & Hrest & Hpub & Hpre).
         split5; try assumption.
         * intros t Ht. apply HW, HW3, HW1, HW2, Ht.
         * intros t [Ht|Ht]; [subst t; apply HW, HW3, Hs1 | apply Hrest; exact Ht].
         * rewrite Hpub. cbn [r3 r_pub]. rewrite Hpub1. reflexivity.
         * intros t Ht. apply Hpre. cbn [r3 r_pre]. apply Hpre1. right. exact Ht.
-      + destruct IH as (t & u & Ht & Hr & Hu). exists t, u.
-        split; [right; exact Ht|]. split; assumption.
+      + apply post_fail_tail with r3. exact IH.
   Qed.
 
-  (* the pending log records exactly what a successful traversal added (in the
-     model the rollback itself is the return of the old state) *)
-  Lemma prefetch_log : forall fuel r pend todo r' pend',
-    prefetch gu fuel r pend todo = Some (r', pend') ->
+  (* ---- the pending log ----
+     Whatever the outcome, the traversal from (r, pend) to (r', pend') has
+     pushed a list [a] of struct ids on the type log and a list [b] on the node
+     log such that
+       - none of them was cached (resp. linked) in r: an id is only ever added
+         to a cache it is not in;
+       - deleting from the cache (resp. unlinking) any set of ids that contains
+         a (resp. b) makes r' indistinguishable from r: everything added is
+         logged.  On failure r' may already miss some of the logged entries
+         (the deletes on the way up), which is why this is stated with
+         [remove_ids] on both sides;
+       - on success the caches are exactly the logged ids pushed on the old ones;
+     and the published descriptors are not touched. *)
+  Definition log_inv (r : reg) (pend : list N * list N)
+                     (r' : reg) (pend' : list N * list N) (ok : bool) : Prop :=
     exists a b,
-      r_pre r' = a ++ r_pre r /\ fst pend' = a ++ fst pend /\
-      r_node r' = b ++ r_node r /\ snd pend' = b ++ snd pend /\ r_pub r' = r_pub r.
+      fst pend' = a ++ fst pend /\ snd pend' = b ++ snd pend /\ r_pub r' = r_pub r /\
+      (forall x, In x a -> ~ In x (r_pre r)) /\ (forall x, In x b -> ~ In x (r_node r)) /\
+      (forall ids, incl a ids -> remove_ids ids (r_pre r') = remove_ids ids (r_pre r)) /\
+      (forall ids, incl b ids -> remove_ids ids (r_node r') = remove_ids ids (r_node r)) /\
+      (ok = true -> r_pre r' = a ++ r_pre r /\ r_node r' = b ++ r_node r).
+
+  Lemma log_inv_refl : forall r pend ok, log_inv r pend r pend ok.
   Proof.
-    induction fuel as [|fuel IH]; intros r pend todo r' pend' H.
-    - rewrite prefetch_O in H. injection H as <- <-. exists [], []. repeat split.
+    intros r pend ok. exists [], []. cbn [app].
+    repeat split; try reflexivity; intros x Hx; destruct Hx.
+  Qed.
+
+  Lemma incl_app_l : forall (a b ids : list N), incl (a ++ b) ids -> incl a ids.
+  Proof. intros a b ids H x Hx. apply H. apply in_or_app. left. exact Hx. Qed.
+
+  Lemma incl_app_r : forall (a b ids : list N), incl (a ++ b) ids -> incl b ids.
+  Proof. intros a b ids H x Hx. apply H. apply in_or_app. right. exact Hx. Qed.
+
+  (* cache hit: one node linked, then the rest *)
+  Lemma log_inv_link : forall r pend s r' pend' ok,
+    ~ In s (r_node r) ->
+    log_inv (mkReg (r_pub r) (r_pre r) (s :: r_node r)) (fst pend, s :: snd pend) r' pend' ok ->
+    log_inv r pend r' pend' ok.
+  Proof.
+    intros r pend s r' pend' ok Hs (a & b & Hf & Hsn & Hpub & Ha & Hb & Hra & Hrb & Hok).
+    cbn [r_pub r_pre r_node fst snd] in *.
+    exists a, (b ++ [s]). rewrite <- app_assoc. cbn [app].
+    split; [exact Hf|]. split; [exact Hsn|]. split; [exact Hpub|]. split; [exact Ha|].
+    split; [|split; [exact Hra|split]].
+    - intros x Hx. apply in_app_or in Hx. destruct Hx as [Hx|[Hx|[]]].
+      + intros Hin. apply (Hb x Hx). right. exact Hin.
+      + subst x. exact Hs.
+    - intros ids Hids. rewrite (Hrb ids (incl_app_l _ _ _ Hids)).
+      apply remove_ids_cons_in. apply Hids. apply in_or_app. right. left. reflexivity.
+    - intros Hk. destruct (Hok Hk) as [H1 H2]. split; [exact H1|].
+      rewrite <- app_assoc. exact H2.
+  Qed.
+
+  (* new descriptor whose sub-build succeeded: cached, descended, linked, then the rest *)
+  Lemma log_inv_build : forall r pend s r1 pend1 r' pend' ok,
+    ~ In s (r_pre r) -> ~ In s (r_node r) ->
+    log_inv (mkReg (r_pub r) (s :: r_pre r) (r_node r)) (s :: fst pend, snd pend) r1 pend1 true ->
+    log_inv (mkReg (r_pub r1) (r_pre r1) (s :: r_node r1)) (fst pend1, s :: snd pend1) r' pend' ok ->
+    log_inv r pend r' pend' ok.
+  Proof.
+    intros r pend s r1 pend1 r' pend' ok Hsp Hsn
+      (a1 & b1 & Hf1 & Hs1 & Hpub1 & Ha1 & Hb1 & Hra1 & Hrb1 & Hok1)
+      (a2 & b2 & Hf2 & Hs2 & Hpub2 & Ha2 & Hb2 & Hra2 & Hrb2 & Hok2).
+    cbn [r_pub r_pre r_node fst snd] in *.
+    destruct (Hok1 eq_refl) as [Hpre1 Hnode1].
+    exists (a2 ++ a1 ++ [s]), (b2 ++ [s] ++ b1).
+    split; [rewrite Hf2, Hf1, <- !app_assoc; reflexivity|].
+    split; [rewrite Hs2, Hs1, <- !app_assoc; reflexivity|].
+    split; [rewrite Hpub2; exact Hpub1|].
+    split; [|split; [|split; [|split]]].
+    - intros x Hx Hin. apply in_app_or in Hx. destruct Hx as [Hx|Hx].
+      + apply (Ha2 x Hx). rewrite Hpre1. apply in_or_app. right. right. exact Hin.
+      + apply in_app_or in Hx. destruct Hx as [Hx|[Hx|[]]].
+        * apply (Ha1 x Hx). right. exact Hin.
+        * subst x. exact (Hsp Hin).
+    - intros x Hx Hin. apply in_app_or in Hx. destruct Hx as [Hx|Hx].
+      + apply (Hb2 x Hx). right. rewrite Hnode1. apply in_or_app. right. exact Hin.
+      + destruct Hx as [Hx|Hx].
+        * subst x. exact (Hsn Hin).
+        * exact (Hb1 x Hx Hin).
+    - intros ids Hids.
+      rewrite (Hra2 ids (incl_app_l _ _ _ Hids)).
+      rewrite (Hra1 ids (incl_app_l _ _ _ (incl_app_r _ _ _ Hids))).
+      apply remove_ids_cons_in. apply Hids. apply in_or_app. right. apply in_or_app. right.
+      left. reflexivity.
+    - intros ids Hids.
+      rewrite (Hrb2 ids (incl_app_l _ _ _ Hids)).
+      rewrite remove_ids_cons_in; [|apply Hids; apply in_or_app; right; left; reflexivity].
+      apply Hrb1. intros x Hx. apply Hids. apply in_or_app. right. right. exact Hx.
+    - intros Hk. destruct (Hok2 Hk) as [H1 H2]. rewrite H1, H2, Hpre1, Hnode1.
+      rewrite <- !app_assoc. cbn [app]. split; reflexivity.
+  Qed.
+
+  (* new descriptor whose sub-build failed: its own cache entry is deleted, the
+     log keeps it, everything made deeper down stays *)
+  Lemma log_inv_fail : forall r pend s r1 pend1,
+    ~ In s (r_pre r) ->
+    log_inv (mkReg (r_pub r) (s :: r_pre r) (r_node r)) (s :: fst pend, snd pend) r1 pend1 false ->
+    log_inv r pend (mkReg (r_pub r1) (remove_ids [s] (r_pre r1)) (r_node r1)) pend1 false.
+  Proof.
+    intros r pend s r1 pend1 Hsp (a1 & b1 & Hf1 & Hs1 & Hpub1 & Ha1 & Hb1 & Hra1 & Hrb1 & _).
+    cbn [r_pub r_pre r_node fst snd] in *.
+    exists (a1 ++ [s]), b1. rewrite <- app_assoc. cbn [app].
+    split; [exact Hf1|]. split; [exact Hs1|]. split; [exact Hpub1|].
+    split; [|split; [exact Hb1|split; [|split; [exact Hrb1|discriminate]]]].
+    - intros x Hx Hin. apply in_app_or in Hx. destruct Hx as [Hx|[Hx|[]]].
+      + apply (Ha1 x Hx). right. exact Hin.
+      + subst x. exact (Hsp Hin).
+    - intros ids Hids. cbn [r_pre].
+      assert (Hs : In s ids) by (apply Hids; apply in_or_app; right; left; reflexivity).
+      rewrite (remove_ids_absorb ids s (r_pre r1) Hs).
+      rewrite (Hra1 ids (incl_app_l _ _ _ Hids)).
+      apply remove_ids_cons_in. exact Hs.
+  Qed.
+
+  Lemma prefetch_log : forall fuel r pend todo r' pend' ok,
+    prefetch gu fuel r pend todo = (r', pend', ok) -> log_inv r pend r' pend' ok.
+  Proof.
+    induction fuel as [|fuel IH]; intros r pend todo r' pend' ok H.
+    - rewrite prefetch_O in H. injection H as <- <- <-. apply log_inv_refl.
     - destruct todo as [|s rest].
-      { rewrite prefetch_nil in H. injection H as <- <-. exists [], []. repeat split. }
+      { rewrite prefetch_nil in H. injection H as <- <- <-. apply log_inv_refl. }
       rewrite prefetch_S in H.
-      destruct (memN s (r_node r)); [exact (IH _ _ _ _ _ H)|].
-      destruct (memN s (r_pre r)).
-      { apply IH in H. cbn [r_pub r_pre r_node fst snd] in H.
-        destruct H as (a & b & H1 & H2 & H3 & H4 & H5).
-        exists a, (b ++ [s]). rewrite <- !app_assoc. cbn [app]. repeat split; assumption. }
-      destruct (negb (resolves gu s)); [discriminate|].
+      destruct (memN s (r_node r)) eqn:Enode; [exact (IH _ _ _ _ _ _ H)|].
+      apply memN_false in Enode.
+      destruct (memN s (r_pre r)) eqn:Epre.
+      { apply log_inv_link with s; [exact Enode|]. exact (IH _ _ _ _ _ _ H). }
+      apply memN_false in Epre.
+      destruct (negb (resolves gu s)).
+      { injection H as <- <- <-. apply log_inv_refl. }
       destruct (prefetch gu fuel (mkReg (r_pub r) (s :: r_pre r) (r_node r)) (s :: fst pend, snd pend)
-                  (mentions ru s)) as [[r1 pend1]|] eqn:E1; [|discriminate].
-      apply IH in E1. apply IH in H. cbn [r_pub r_pre r_node fst snd] in E1, H.
-      destruct E1 as (a1 & b1 & F1 & F2 & F3 & F4 & F5).
-      destruct H as (a2 & b2 & H1 & H2 & H3 & H4 & H5).
-      exists (a2 ++ a1 ++ [s]), (b2 ++ [s] ++ b1).
-      rewrite H1, H2, H3, H4, H5, F1, F2, F3, F4, F5. rewrite <- !app_assoc. cbn [app].
-      repeat split.
+                  (mentions ru s)) as [[r1 pend1] [|]] eqn:E1.
+      + apply log_inv_build with s r1 pend1; [exact Epre | exact Enode | |].
+        * exact (IH _ _ _ _ _ _ E1).
+        * exact (IH _ _ _ _ _ _ H).
+      + injection H as <- <- <-. apply log_inv_fail; [exact Epre|].
+        exact (IH _ _ _ _ _ _ E1).
+  Qed.
+
+  (* rollbackPending after the traversal started by createStructDesc restores
+     the state before the call -- whatever the fuel, the work list and the
+     outcome: this is the rollback doing its job, not the model discarding a
+     partial state *)
+  Theorem rollback_restores : forall fuel r s todo r1 pend1 ok1,
+    ~ In s (r_pre r) ->
+    prefetch gu fuel (mkReg (r_pub r) (s :: r_pre r) (r_node r)) ([s], []) todo = (r1, pend1, ok1) ->
+    rollback r1 pend1 = r.
+  Proof.
+    intros fuel r s todo r1 pend1 ok1 Hs H. apply prefetch_log in H.
+    destruct H as (a & b & Hf & Hsn & Hpub & Ha & Hb & Hra & Hrb & _).
+    cbn [r_pub r_pre r_node fst snd] in *.
+    rewrite rollback_eq, Hpub, Hf, Hsn.
+    rewrite (Hra (a ++ [s]) (incl_appl [s] (incl_refl a))).
+    rewrite (Hrb (b ++ []) (incl_appl [] (incl_refl b))).
+    rewrite remove_ids_cons_in; [|apply in_or_app; right; left; reflexivity].
+    rewrite remove_ids_absent.
+    2:{ intros x Hx Hin. apply in_app_or in Hx. destruct Hx as [Hx|[Hx|[]]].
+        - apply (Ha x Hx). right. exact Hin.
+        - subst x. exact (Hs Hin). }
+    rewrite remove_ids_absent.
+    2:{ intros x Hx. rewrite app_nil_r in Hx. exact (Hb x Hx). }
+    destruct r; reflexivity.
+  Qed.
+
+  (* a failed createStructDesc leaves the registration state as it found it:
+     no hypothesis on the state *)
+  Theorem create_failure_restores : forall r s,
+    snd (create gu r s) = false -> fst (create gu r s) = r.
+  Proof.
+    intros r s. rewrite create_eq.
+    destruct (memN s (r_pub r)); [discriminate|].
+    destruct (memN s (r_pre r)) eqn:Epre; [discriminate|].
+    destruct (negb (resolves gu s)); [reflexivity|].
+    destruct (prefetch gu (prefetch_fuel gu) (mkReg (r_pub r) (s :: r_pre r) (r_node r)) ([s], [])
+                (mentions ru s)) as [[r1 pend1] [|]] eqn:E; [discriminate|].
+    intros _. cbn [fst]. apply memN_false in Epre.
+    exact (rollback_restores _ _ _ _ _ _ _ Epre E).
   Qed.
 
   Lemma prefetch_fuel_enough : forall s pre,
@@ -585,8 +821,8 @@ Section Registration.
       - left. apply Hok. right. right. exact Ht. }
     pose proof (prefetch_spec (prefetch_fuel gu) r0 ([s], []) (mentions ru s) [s]
                   (prefetch_fuel_enough s (r_pre r) Eres Epre) HP0) as Hspec.
-    destruct (prefetch gu (prefetch_fuel gu) r0 ([s], []) (mentions ru s)) as [[r1 pend1]|];
-      cbn in Hspec.
+    destruct (prefetch gu (prefetch_fuel gu) r0 ([s], []) (mentions ru s)) as [[r1 pend1] [|]] eqn:E;
+      unfold prefetch_post in Hspec.
     - destruct Hspec as (HP1 & HW1 & Hm1 & Hpub1 & Hpre1).
       assert (Hall : forall t, W r1 t -> accepted_with ru t = true).
       { apply closed_upto_accepted. intros t Ht.
@@ -602,7 +838,10 @@ Section Registration.
       + rewrite Hpub1 in Ht. apply Hok. left. exact Ht.
       + apply Hall. left. exact Ht.
       + apply Hall. right. exact Ht.
-    - destruct Hspec as (t & u & Ht & Hr & Hu).
+    - (* the build failed: the rollback, from the log, gives back r *)
+      assert (Hrb : rollback r1 pend1 = r).
+      { apply memN_false in Epre. exact (rollback_restores _ _ _ _ _ _ _ Epre E). }
+      destruct Hspec as (t & u & Ht & Hr & Hu). rewrite Hrb.
       split; [|split; [exact Hok | reflexivity]].
       symmetry. apply accepted_false with u; [|exact Hu].
       apply reach_step with t; assumption.
@@ -1023,7 +1262,78 @@ Module Example.
     snd (api_step gu (run_history gu p_init h) (CDecode 3 [0] (VT [VP None] [])) [9]) = ORejected
     /\ snd (api_step gu (run_history gu p_init h) (CLegacy LSetMaxInlineILSize 11) []) = OLegacy 11.
   Proof. vm_compute. repeat split. Qed.
+
+  (* the failed build of A seen from inside: B was cached, linked A's node
+     through its back reference, failed on C and deleted its own cache entry;
+     what is left is A's cache entry and A's linked node, and the log names
+     both (and B); the rollback from that log gives back the empty state *)
+  Example failed_build_state_and_log :
+    prefetch gu (prefetch_fuel gu) (mkReg [] [0] []) ([0], []) (mentions (resolve_universe gu) 0)
+      = (mkReg [] [0] [0], ([1; 0], [0]), false)
+    /\ rollback (mkReg [] [0] [0]) ([1; 0], [0]) = reg_init.
+  Proof. vm_compute. repeat split. Qed.
+
+  (* createStructDesc with a defective rollback: the pending log goes through
+     [lose] before rollbackPending reads it (e.g. a log cleared too early) *)
+  Definition create_losing (lose : list N * list N -> list N * list N) (r : reg) (s : N) : reg * bool :=
+    if memN s (r_pub r) then (r, true)
+    else if memN s (r_pre r) then (mkReg (s :: r_pub r) (r_pre r) (r_node r), true)
+    else if negb (resolves gu s) then (r, false)
+    else
+      let '(r1, pend1, ok1) :=
+        prefetch gu (prefetch_fuel gu) (mkReg (r_pub r) (s :: r_pre r) (r_node r)) ([s], [])
+                 (mentions (resolve_universe gu) s) in
+      if ok1 then (mkReg (s :: r_pub r1) (r_pre r1) (r_node r1), true)
+      else (rollback r1 (lose pend1), false).
+
+  Example create_losing_nothing : forall r s, create_losing (fun p => p) r s = create gu r s.
+  Proof. reflexivity. Qed.
 End Example.
+
+(* The rollback restores the state only from the full log.  In the universe of
+   [Example] (A -> B -> {A, C}, C unsupported; Q -> A), register A -- rejected --
+   and then Q, which is rejected as well since it reaches C:
+     - if the node half of the log is lost, A's type node stays linked
+       (tType.Sd != nil): the build of Q trusts it as complete and Q is
+       published although its encoding reaches the unsupported C;
+     - if the cache half is lost, A's entry stays in prefetchStructDescCache:
+       the build of Q takes the cache hit, links it, and Q is published too;
+     - with the full log (the real [create]) nothing is left and Q is rejected.
+   Before the rollback was explicit the model could not tell these apart. *)
+Theorem rollback_needs_full_log :
+  let gu := Example.gu in
+  let ru := resolve_universe gu in
+  let drop_nodes := fun p : list N * list N => (fst p, @nil N) in
+  let drop_types := fun p : list N * list N => (@nil N, snd p) in
+  accepted_with ru 0 = false /\ accepted_with ru 3 = false
+  (* node log lost *)
+  /\ Example.create_losing drop_nodes reg_init 0 = (mkReg [] [] [0], false)
+  /\ mkReg [] [] [0] <> reg_init
+  /\ create gu (mkReg [] [] [0]) 3 = (mkReg [3] [3] [0], true)
+  (* type log lost *)
+  /\ Example.create_losing drop_types reg_init 0 = (mkReg [] [0] [], false)
+  /\ create gu (mkReg [] [0] []) 3 = (mkReg [3] [3; 0] [0], true)
+  (* full log *)
+  /\ create gu reg_init 0 = (reg_init, false)
+  /\ create gu (fst (create gu reg_init 0)) 3 = (reg_init, false)
+  (* and the state the defective rollback leaves is one no history reaches *)
+  /\ ~ reg_ok gu (mkReg [] [] [0]) /\ ~ reg_ok gu (mkReg [] [0] []).
+Proof.
+  cbv zeta.
+  assert (H0 : accepted_with (resolve_universe Example.gu) 0 = false) by (vm_compute; reflexivity).
+  split; [exact H0|].
+  split; [vm_compute; reflexivity|].
+  split; [vm_compute; reflexivity|].
+  split; [discriminate|].
+  split; [vm_compute; reflexivity|].
+  split; [vm_compute; reflexivity|].
+  split; [vm_compute; reflexivity|].
+  split; [vm_compute; reflexivity|].
+  split; [vm_compute; reflexivity|].
+  split.
+  - intros H. specialize (H 0 (or_intror (or_intror (or_introl eq_refl)))). congruence.
+  - intros H. specialize (H 0 (or_intror (or_introl (or_introl eq_refl)))). congruence.
+Qed.
 
 Print Assumptions history_independent.
 Print Assumptions rejected_stable.
@@ -1032,6 +1342,11 @@ Print Assumptions legacy_ret_values.
 Print Assumptions decode_pool_irrelevant.
 Print Assumptions create_pure.
 Print Assumptions accepted_spec.
+Print Assumptions rollback_restores.
+Print Assumptions create_failure_restores.
+Print Assumptions rollback_needs_full_log.
 Check create_pure. Check history_independent. Check rejected_stable. Check legacy_inert.
 Check legacy_ret_values. Check decode_pool_irrelevant. Check accepted_spec. Check prefetch_spec.
 Check prefetch_fuel_enough. Check reg_ok_init.
+Check prefetch_log. Check remove_added. Check rollback_restores. Check create_failure_restores.
+Check rollback_needs_full_log.
